@@ -1,6 +1,8 @@
 import C2paModel.Lemmas.C18Ser
 import C2paModel.Lemmas.C18Total
 import C2paModel.Lemmas.C18Dec
+import C2paModel.Lemmas.C18Size
+import C2paModel.Lemmas.C18Ctor
 /-
 C18 — property theorems. The statement (properties.jsonl):
 
@@ -14,17 +16,37 @@ runs `parse` on the whole store and `write_box → read_super_box` once more on 
 (`CAIManifest::from`). The claim/assertion layer above the boxes is checked on the implementation
 only (harness oracle `store-identity` / `store-fixed-point`).
 
-* `parse_ser`            reading what the writer wrote gives the tree back (all valid, quirk-free
-                         trees of any size below 4 GiB and nesting ≤ 32; by structural induction)
+* `parse_ser_append`     the first sentence of the statement in its own form: the written form of
+                         every valid, quirk-free tree (any shape, below 4 GiB, nesting ≤ 32), followed by
+                         arbitrary bytes, is read back as that tree, consuming exactly the written bytes
+                         (`parse_ser` is the case without trailing bytes; by structural induction)
+* `new_valid_iff`, `new_roundtrip`, `new_unreadable`   the SDK's constructors: `JUMBFDescriptionBox::new`
+                         (+ `set_salt`) yields a readable box exactly for a non-empty `str` label without NUL;
+                         otherwise the written box is rejected (`UnexpectedEof`) — replayed through the real
+                         constructors; the store serialiser now refuses such labels
+                         (fixes/C18-reject-unstorable-box-labels.patch)
+* `parse_size_bound`     the accepted tree re-serialises to at most 9/8 of the bytes consumed (the tighter
+                         `size ≤ consumed` is false: `not_parse_size_le`), hence `reser_fixed_point_input`
+                         needs no hypothesis about the size of the output tree
+* `manifest_plain_roundtrip`, `manifest_compressed_roundtrip`   the manifest layer (`CAIManifest::from` /
+                         `write_box_payload`), Brotli as a parameter with `dec (enc y) = some y`
+* `loadBoxes_plain_fixed`  the store reader's composite acceptance below the claim layer (`read_super_box`,
+                         then `CAIManifest::from` on every child): on an accepted store of plain manifests
+                         with a quirk-free tree, load → write gives `ser (parse x)` back
+* `writer_size_no_overflow`, `reser_writer_no_overflow`   the writer's unchecked `u32` additions compute
+                         `Box.size` exactly below 4 GiB
 * `parse_wf`             everything the reader accepts is `Valid` and nests ≤ 32
 * `parse_total_depth_bounded`  the reader terminates on every byte string with an error or a tree,
                          never with `panic` (unchecked overflow) or `oof`, and never recurses at
                          depth ≥ 32 (`superBox_depth_guard`)
-* `reser_fixed_point_partial`  for every accepted byte string whose tree is quirk-free:
-                         write → read → write is a fixed point
-* `not_reserFixedPoint`  the *full* fixed-point statement is false for the box layer: three
-                         kinds of accepted input (`QuirkFree` names exactly them) are not
-                         reproduced; each has a kernel-evaluated witness, replayed on the
+* `reser_fixed_point_partial` / `reser_fixed_point_input`  for every accepted byte string whose tree is
+                         quirk-free: write → read → write is a fixed point (`_input`: for inputs up to
+                         3 817 748 707 bytes, no hypothesis on the tree's size); `nonCanon_*` instantiate it on
+                         an accepted input that is not the written form of any tree
+* `not_reserFixedPoint`, `not_reserAccepted`  the *full* fixed-point statement is false for the box
+                         layer: three kinds of accepted input (`QuirkFree` names exactly them) are not
+                         reproduced (one grows on every pass, two re-serialise to bytes the reader
+                         rejects); each has a kernel-evaluated witness, replayed on the
                          implementation by the harness. (At store level `from_jumbf` rebuilds
                          assertion boxes from their content, or rejects; the harness shows no
                          store-level failure.)
@@ -59,6 +81,35 @@ theorem parse_ser_canon (desc : Desc) (cs : List Box)
     parse (Box.super desc cs).ser = .ok (Box.super desc cs, (Box.super desc cs).ser.length) := by
   have := parse_ser desc cs hv hq hh hs
   rwa [hn] at this
+
+/-- **parse ∘ ser, followed by anything** — the first sentence of the property in its own form.
+The written form of a valid, quirk-free super box followed by arbitrary bytes `post` is read back as
+the tree (up to `norm`), and the reader stops exactly at the end of the written form: it neither runs
+past `dest` into `post` nor stops short. -/
+theorem parse_ser_append (desc : Desc) (cs : List Box) (post : Bytes)
+    (hv : (Box.super desc cs).Valid) (hq : (Box.super desc cs).QuirkFree)
+    (hh : (Box.super desc cs).height ≤ MAX_JUMB_DEPTH) (hs : (Box.super desc cs).size < 4294967296)
+    (hL : (Box.super desc cs).ser.length + post.length < 2 ^ 64) :
+    parse ((Box.super desc cs).ser ++ post) =
+      .ok ((Box.super desc cs).norm, (Box.super desc cs).ser.length) :=
+  parse_ser_append_super desc cs post hv hq hh hs hL
+
+/-- the same for an arbitrary tree `t` (not only the output of a parse): whenever `t` is a super box -/
+theorem parse_ser_append_tree (t : Box) (post : Bytes) (hsup : t.isSuper)
+    (hv : t.Valid) (hq : t.QuirkFree) (hh : t.height ≤ MAX_JUMB_DEPTH) (hs : t.size < 4294967296)
+    (hL : t.ser.length + post.length < 2 ^ 64) :
+    parse (t.ser ++ post) = .ok (t.norm, t.ser.length) := by
+  cases t with
+  | super desc cs => exact parse_ser_append desc cs post hv hq hh hs hL
+  | leaf _ _ => exact absurd hsup id
+  | uuid _ _ => exact absurd hsup id
+  | bfdb _ _ _ => exact absurd hsup id
+
+/-- a tree that is not a super box is never the result of a parse, so the restriction is necessary -/
+example : ∀ x e k dt, parse x ≠ .ok (.leaf k dt, e) := by
+  intro x e k dt h
+  have := (parse_post x).of_eq_ok h
+  exact this.2.2.2.2
 
 /-! ### what the reader accepts -/
 
@@ -100,27 +151,52 @@ def ReserFixedPoint : Prop :=
 /-- **Fixed point, partial**: for every byte string the reader accepts whose tree is quirk-free (no
 super box without content boxes, no `uuid` box without data, no `bfdb` box with toggles 1 and a NUL
 inside a valid-UTF-8 media type) and re-serialises below 4 GiB: the re-serialisation is accepted,
-consumed completely, re-serialises to the same bytes, and from then on reading and writing are
-inverse to each other. -/
+consumed completely, and re-serialises to the same bytes. (Reading `b.norm.ser` again gives `b.norm`
+again: rewrite the first conjunct with the second.) -/
 theorem reser_fixed_point_partial (x : Bytes) (b : Box) (e : Nat) (h : parse x = .ok (b, e))
     (hq : b.QuirkFree) (hs : b.size < 4294967296) :
-    parse b.ser = .ok (b.norm, b.ser.length) ∧ b.norm.ser = b.ser ∧
-      parse b.norm.ser = .ok (b.norm, b.norm.ser.length) := by
+    parse b.ser = .ok (b.norm, b.ser.length) ∧ b.norm.ser = b.ser := by
   obtain ⟨hv, hh, _, hsup⟩ := parse_wf x b e h
   cases b with
-  | super desc cs =>
-    have h1 := parse_ser desc cs hv hq hh hs
-    have h2 := (Box.super desc cs).norm_ser
-    exact ⟨h1, h2, by rw [h2]; exact h1⟩
+  | super desc cs => exact ⟨parse_ser desc cs hv hq hh hs, (Box.super desc cs).norm_ser⟩
   | leaf _ _ => exact absurd hsup id
   | uuid _ _ => exact absurd hsup id
   | bfdb _ _ _ => exact absurd hsup id
+
+/-- **Fixed point from a hypothesis on the input only** (apart from `QuirkFree`, which is decidable on
+the parse result and whose three excluded shapes are proved counter-examples below): the size
+hypothesis of `reser_fixed_point_partial` is discharged by `parse_size_bound` — an input of at most
+8/9 · 2^32 bytes cannot produce a tree that re-serialises to 4 GiB. The bytes of `x` enter through
+`8 · |ser b| ≤ 9 · e ≤ 9 · |x|`. -/
+theorem reser_fixed_point_input (x : Bytes) (b : Box) (e : Nat) (h : parse x = .ok (b, e))
+    (hq : b.QuirkFree) (hx : x.length ≤ 3817748707) :
+    ∃ b' e', parse b.ser = .ok (b', e') ∧ b'.ser = b.ser ∧ e' = b.ser.length ∧
+      8 * b.ser.length ≤ 9 * e := by
+  have hs := parse_size_lt_u32 x b e h hq hx
+  obtain ⟨h1, h2⟩ := reser_fixed_point_partial x b e h hq hs
+  refine ⟨b.norm, _, h1, h2, rfl, ?_⟩
+  have := parse_size_bound x b e h hq
+  rw [b.ser_length (parse_wf x b e h).1 hq]
+  exact this
 
 /-- `ser (parse (ser (parse x))) = ser (parse x)` in the form of the statement. -/
 theorem reser_fixed_point_partial' (x : Bytes) (b : Box) (e : Nat) (h : parse x = .ok (b, e))
     (hq : b.QuirkFree) (hs : b.size < 4294967296) :
     ∃ b' e', parse b.ser = .ok (b', e') ∧ b'.ser = b.ser :=
-  ⟨b.norm, _, (reser_fixed_point_partial x b e h hq hs).1, (reser_fixed_point_partial x b e h hq hs).2.1⟩
+  ⟨b.norm, _, (reser_fixed_point_partial x b e h hq hs).1, (reser_fixed_point_partial x b e h hq hs).2⟩
+
+/-- **Canonical inputs: everything from the input.** When the input is the written form of a valid
+quirk-free tree followed by anything, `QuirkFree` of the parse result is *derived* (`norm` keeps it),
+so the fixed point holds with hypotheses about the input only. -/
+theorem reser_fixed_point_written (t : Box) (post : Bytes) (hsup : t.isSuper)
+    (hv : t.Valid) (hq : t.QuirkFree) (hh : t.height ≤ MAX_JUMB_DEPTH) (hs : t.size < 4294967296)
+    (hL : t.ser.length + post.length < 2 ^ 64) :
+    ∃ b e, parse (t.ser ++ post) = .ok (b, e) ∧ b.QuirkFree ∧
+      parse b.ser = .ok (b.norm, b.ser.length) ∧ b.norm.ser = b.ser := by
+  have h := parse_ser_append_tree t post hsup hv hq hh hs hL
+  have hqn := t.norm_quirkFree hq
+  obtain ⟨h1, h2⟩ := reser_fixed_point_partial _ _ _ h hqn (by rw [t.norm_size]; exact hs)
+  exact ⟨t.norm, _, h, hqn, h1, h2⟩
 
 /-! ### the three quirks: accepted inputs that are not reproduced -/
 
@@ -168,16 +244,13 @@ theorem not_reserFixedPoint : ¬ ReserFixedPoint := by
   cases h1
   exact wBfdb_grows h2
 
-theorem not_reserFixedPoint_uuid : ¬ ReserFixedPoint := by
+/-- the weaker statement "the re-serialisation of an accepted input is accepted" is false as well
+(witness (2); witness (3) `wEmpty_accepted` / `wEmpty_rejected` refutes it in the same way) -/
+theorem not_reserAccepted :
+    ¬ (∀ x b e, parse x = .ok (b, e) → ∃ r, parse b.ser = .ok r) := by
   intro h
-  obtain ⟨b', e', h1, _⟩ := h _ _ _ wUuid_accepted
+  obtain ⟨r, h1⟩ := h _ _ _ wUuid_accepted
   rw [wUuid_rejected] at h1
-  cases h1
-
-theorem not_reserFixedPoint_empty : ¬ ReserFixedPoint := by
-  intro h
-  obtain ⟨b', e', h1, _⟩ := h _ _ _ wEmpty_accepted
-  rw [wEmpty_rejected] at h1
   cases h1
 
 /-- the witnesses are exactly outside `QuirkFree` -/
@@ -221,5 +294,231 @@ example : parse (be32 4096 ++ be32 JUMB ++ serDesc (qDesc 97) ++ [0, 0, 0, 11, 1
 example : parse (be32 4096 ++ be32 JUMB ++ serDesc (qDesc 97) ++
     (be32 1 ++ be32 JUMB ++ be32 1 ++ be32 JUMB ++ List.replicate 8 255)) = .err .invalidBoxRange :=
   isErr_sound (by decide +kernel)
+
+/-! ### a non-canonical accepted input
+
+`xNonCanon` is not the written form of any tree: it carries an unknown box (`xxxx`, skipped by the
+reader), a size-0 header (`json`, read as an empty box), and a `bfdb` media type without its NUL
+terminator (the writer adds one). -/
+
+def xNonCanon : Bytes :=
+  be32 75 ++ be32 JUMB ++ serDesc (qDesc 113)
+    ++ (be32 12 ++ be32 0x78787878 ++ [1, 2, 3, 4])
+    ++ (be32 0 ++ be32 Kind.json.fourcc)
+    ++ (be32 10 ++ be32 BFDB ++ [0, 97])
+    ++ (Box.leaf .bidb [1, 2]).ser
+
+def tNonCanon : Box := .super (qDesc 113) [.leaf .json [], .bfdb 0 [97] none, .leaf .bidb [1, 2]]
+
+theorem nonCanon_accepted : parse xNonCanon = .ok (tNonCanon, 75) := isOk_sound (by decide +kernel)
+theorem nonCanon_quirkFree : tNonCanon.QuirkFree := by
+  simp [tNonCanon, Box.QuirkFree, QuirkFreeList]
+theorem nonCanon_not_written : tNonCanon.ser ≠ xNonCanon := by decide
+
+/-- the fixed-point theorem instantiated on the non-canonical input: its hypotheses hold, and the
+conclusion is not the trivial one (`tNonCanon.ser` is 64 bytes, `xNonCanon` 75) -/
+example : ∃ b' e', parse tNonCanon.ser = .ok (b', e') ∧ b'.ser = tNonCanon.ser ∧
+    e' = tNonCanon.ser.length ∧ 8 * tNonCanon.ser.length ≤ 9 * 75 :=
+  reser_fixed_point_input xNonCanon tNonCanon 75 nonCanon_accepted nonCanon_quirkFree (by decide)
+example : tNonCanon.ser.length = 64 ∧ xNonCanon.length = 75 := by decide
+
+/-! ### constructors: what the SDK builds its boxes with -/
+
+/-- **Round trip for trees built with `JUMBFDescriptionBox::new` (+ `set_salt`).** For a label that is
+a non-empty `str` without NUL and a 16-byte UUID, the box with any valid quirk-free content boxes,
+written and followed by arbitrary bytes, reads back as itself (whether or not `set_salt` accepted the
+salt). -/
+theorem new_roundtrip (label uuid : Bytes) (p : Option Bytes) (cs : List Box) (post : Bytes)
+    (hu : uuid.length = 16) (hl : strNonEmpty label = true) (h0 : (0 : UInt8) ∉ label)
+    (hne : cs ≠ []) (hv : ValidList cs) (hq : QuirkFreeList cs)
+    (hh : 1 + heightList cs ≤ MAX_JUMB_DEPTH)
+    (hs : (Box.super ((Desc.new label uuid).withSalt p) cs).size < 4294967296)
+    (hL : (Box.super ((Desc.new label uuid).withSalt p) cs).ser.length + post.length < 2 ^ 64) :
+    parse ((Box.super ((Desc.new label uuid).withSalt p) cs).ser ++ post) =
+      .ok ((Box.super ((Desc.new label uuid).withSalt p) cs).norm,
+        (Box.super ((Desc.new label uuid).withSalt p) cs).ser.length) :=
+  parse_ser_append _ cs post
+    ⟨new_withSalt_valid p ((new_valid_iff label uuid).2 ⟨hu, hl, h0⟩), hv⟩ ⟨hne, hq⟩
+    (by simpa [Box.height] using hh) hs hL
+
+/-- the SDK's redaction placeholder with *empty* data (`CAIUUIDAssertionBox::new("c2pa.redacted")` +
+`add_uuid(C2PA_REDACTION_UUID, vec![])`, which `get_assertion_from_jumbf_store` explicitly allows:
+"zeros or empty"): the written box is not readable -/
+def ctorUuidEmpty : Box :=
+  .super (Desc.new [99, 50, 112, 97, 46, 114, 101, 100, 97, 99, 116, 101, 100]
+      (hexU "7575696400110010800000aa00389b71"))
+    [.uuid (hexU "caa98eee9d4df80e86ad4dffca263973") []]
+
+theorem ctorUuidEmpty_unreadable : parse ctorUuidEmpty.ser = .err .invalidUuid :=
+  isErr_sound (by decide +kernel)
+
+/-- a manifest whose assertion store is empty (`CAIAssertionStore::new()` with nothing added, followed
+by the claim box): not readable (the reader takes the claim box for the store's content and then
+finds the position beyond the store's end) -/
+def ctorEmptyStore : Box :=
+  .super (Desc.new [109] (hexU "63326d6100110010800000aa00389b71"))
+    [.super (Desc.new [99, 50, 112, 97, 46, 97, 115, 115, 101, 114, 116, 105, 111, 110, 115]
+        (hexU "6332617300110010800000aa00389b71")) [],
+     .super (Desc.new [99, 50, 112, 97, 46, 99, 108, 97, 105, 109]
+        (hexU "6332636c00110010800000aa00389b71")) [.leaf .cbor [0xa0]]]
+
+theorem ctorEmptyStore_unreadable : parse ctorEmptyStore.ser = .err .invalidJumbBox :=
+  isErr_sound (by decide +kernel)
+
+/-- non-vacuity of `new_roundtrip` / `new_unreadable`: the JSON assertion box the SDK builds for the
+label `q`, with a 16-byte salt; and the same with the label `q\0x` -/
+example : parse ((Box.super ((Desc.new [113] (hexU "6a736f6e00110010800000aa00389b71")).withSalt
+      (some (List.replicate 16 7))) [.leaf .json [123, 125]]).ser ++ [1, 2, 3]) =
+    .ok (.super ⟨hexU "6a736f6e00110010800000aa00389b71", 19, [113], none, none,
+      some (List.replicate 16 7)⟩ [.leaf .json [123, 125]], 69) :=
+  isOk_sound (by decide +kernel)
+example : parse ((Box.super (Desc.new [113, 0, 120] (hexU "6a736f6e00110010800000aa00389b71"))
+      [.leaf .json [123, 125]]).ser ++ [1, 2, 3]) = .err .unexpectedEof :=
+  new_unreadable _ _ _ _ (by decide) (Or.inl (by decide)) (by decide)
+
+/-! ### large-size child boxes are never read correctly (finding, not a round-trip failure)
+
+`read_super_box_impl` seeks back 8 bytes after the header of a child, also when the header was the
+16-byte large-size form; the content reader then takes the XLBox field for a header.  With a size
+below 2^32 that header has size 0: the box is taken as empty, and its *payload is read as the next
+sibling boxes*. A nested large-size `jumb` gives `InvalidJumbfHeader`. -/
+
+/-- a large-size `json` box (size 24) whose 8 payload bytes are `00000008 66726565` -/
+def xLargeChild : Bytes :=
+  be32 59 ++ be32 JUMB ++ serDesc (qDesc 113)
+    ++ (be32 1 ++ be32 Kind.json.fourcc ++ (be32 0 ++ be32 24) ++ (be32 8 ++ be32 Kind.free.fourcc))
+
+theorem largeChild_misread :
+    parse xLargeChild = .ok (.super (qDesc 113) [.leaf .json [], .leaf .free []], 59) :=
+  isOk_sound (by decide +kernel)
+
+theorem largeChild_jumb_rejected :
+    parse (be32 86 ++ be32 JUMB ++ serDesc (qDesc 113)
+      ++ (be32 1 ++ be32 JUMB ++ (be32 0 ++ be32 51) ++ serDesc (qDesc 101) ++ (Box.leaf .json [123, 125]).ser))
+      = .err .invalidJumbfHeader :=
+  isErr_sound (by decide +kernel)
+
+/-! ### the manifest layer: `CAIManifest::from` and `CAIManifest::write_box_payload` -/
+
+/-- **Plain manifests.** The re-read that `CAIManifest::from` performs on every uncompressed child of
+the store is the identity (up to `norm`) on valid quirk-free manifests, and writing the result gives
+the manifest's bytes back. -/
+theorem manifest_plain_roundtrip (dec : Bytes → Option Bytes) (enc : Bytes → Bytes)
+    (d : Desc) (cs : List Box)
+    (hv : (Box.super d cs).Valid) (hq : (Box.super d cs).QuirkFree)
+    (hh : (Box.super d cs).height ≤ MAX_JUMB_DEPTH) (hs : (Box.super d cs).size < 4294967296)
+    (hnb : firstBrob (.super d cs) = none) :
+    manifestFrom dec (.super d cs) = .ok ⟨false, mtypeOf (.super d cs), (Box.super d cs).norm⟩ ∧
+      manifestWrite enc ⟨false, mtypeOf (.super d cs), (Box.super d cs).norm⟩ = (Box.super d cs).ser := by
+  constructor
+  · rw [firstBrob_none_ser d cs dec hnb, parse_ser d cs hv hq hh hs]
+    simp [mtypeOf_norm]
+  · simp [manifestWrite, Box.norm_ser]
+
+/-- the box `CAIManifest::write_box_payload` writes for a compressed manifest -/
+def compressedBox (enc : Bytes → Bytes) (d : Desc) (cs : List Box) : Box :=
+  .super (Desc.new (labelStr d.label) UUID_C2CM) [.leaf .brob (enc (Box.super d cs).ser)]
+
+/-- **Compressed manifests** ("including compressed manifests"), Brotli as a parameter: `enc` is a
+function (the compressor is deterministic) and `dec` undoes it on this input. Writing a compressed
+manifest gives the `c2cm` box `W`; `W` (followed by anything) is read back by the box reader as
+itself; `CAIManifest::from` on it gives the manifest back (with a fresh depth budget: the manifest may
+itself nest 32 deep); and writing that gives `W` again. -/
+theorem manifest_compressed_roundtrip (dec : Bytes → Option Bytes) (enc : Bytes → Bytes)
+    (d : Desc) (cs : List Box) (t : MType) (post : Bytes)
+    (hv : (Box.super d cs).Valid) (hq : (Box.super d cs).QuirkFree)
+    (hh : (Box.super d cs).height ≤ MAX_JUMB_DEPTH) (hs : (Box.super d cs).size < 4294967296)
+    (hbr : dec (enc (Box.super d cs).ser) = some (Box.super d cs).ser)
+    (hsW : (compressedBox enc d cs).size < 4294967296)
+    (hL : (compressedBox enc d cs).ser.length + post.length < 2 ^ 64) :
+    manifestWrite enc ⟨true, t, .super d cs⟩ = (compressedBox enc d cs).ser ∧
+    parse ((compressedBox enc d cs).ser ++ post) =
+      .ok (compressedBox enc d cs, (compressedBox enc d cs).ser.length) ∧
+    manifestFrom dec (compressedBox enc d cs) =
+      .ok ⟨true, mtypeOf (.super d cs), (Box.super d cs).norm⟩ ∧
+    manifestWrite enc ⟨true, mtypeOf (.super d cs), (Box.super d cs).norm⟩ =
+      (compressedBox enc d cs).ser := by
+  have hlab := labelStr_of_valid hv.1
+  refine ⟨by simp [manifestWrite, Box.descOf, compressedBox], ?_, ?_, ?_⟩
+  · have hd := hv.1
+    have := new_roundtrip (labelStr d.label) UUID_C2CM none
+      [.leaf .brob (enc (Box.super d cs).ser)] post (by decide)
+      (by rw [hlab]; exact hd.2) (by rw [hlab]; exact hd.1.2.2.1) (by simp)
+      (by simp [ValidList, Box.Valid]) (by simp [QuirkFreeList, Box.QuirkFree])
+      (by simp [heightList, Box.height, MAX_JUMB_DEPTH])
+      (by simpa [compressedBox, Desc.withSalt] using hsW)
+      (by simpa [compressedBox, Desc.withSalt] using hL)
+    simpa [compressedBox, Desc.withSalt, Box.norm, normList] using this
+  · unfold manifestFrom
+    simp only [compressedBox, firstBrob, hbr]
+    rw [parse_ser d cs hv hq hh hs]
+    simp [mtypeOf_norm]
+  · simp [manifestWrite, Box.descOf, Box.norm, compressedBox, normList_ser, normList_size, Box.ser]
+
+/-- `CAIManifest::from` decides "compressed" by the type of the first child alone: neither the UUID of
+the enclosing box (`c2cm` or not) nor its label, salt or further children matter — they are dropped,
+and the re-serialisation carries the `c2cm` UUID and the label of the *decompressed* box. -/
+theorem manifestFrom_brob_any_desc (dec : Bytes → Option Bytes) (d d' : Desc) (x : Bytes)
+    (cs cs' : List Box) :
+    manifestFrom dec (.super d (.leaf .brob x :: cs)) = manifestFrom dec (.super d' (.leaf .brob x :: cs')) := by
+  simp [manifestFrom, firstBrob]
+
+/-- **The manifest loop of the store reader on an accepted store** (the composite acceptance that
+`Store::from_jumbf_impl` applies below the claim layer: `read_super_box` on the buffer, then
+`CAIManifest::from` — write and re-read — on every child). If the reader accepts `x` (at most
+8/9 · 2^32 bytes) with a quirk-free tree whose children are all plain (uncompressed) manifests, then
+every child loads, and writing the loaded manifests gives exactly the children's re-serialisation:
+load → write is the identity on `ser (parse x)` at the manifest layer. -/
+theorem loadBoxes_plain_fixed (dec : Bytes → Option Bytes) (enc : Bytes → Bytes)
+    (x : Bytes) (d : Desc) (cs : List Box) (e : Nat)
+    (h : parse x = .ok (.super d cs, e)) (hq : (Box.super d cs).QuirkFree)
+    (hx : x.length ≤ 3817748707)
+    (hplain : ∀ c ∈ cs, c.isSuper ∧ firstBrob c = none) :
+    ∃ ms, loadBoxes dec x = .ok ms ∧ ms.map (manifestWrite enc) = cs.map Box.ser := by
+  obtain ⟨hv, hh, _, _⟩ := parse_wf x _ e h
+  have hs := parse_size_lt_u32 x _ e h hq hx
+  have hsz : sizeList cs < 4294967296 := by simp [Box.size] at hs; omega
+  have hht : heightList cs < MAX_JUMB_DEPTH := by simp [Box.height] at hh; omega
+  have key : ∀ (l : List Box), (∀ c ∈ l, c ∈ cs) →
+      ∃ ms, childManifests dec l = .ok ms ∧ ms.map (manifestWrite enc) = l.map Box.ser := by
+    intro l
+    induction l with
+    | nil => intro _; exact ⟨[], rfl, rfl⟩
+    | cons c rest ih =>
+      intro hmem
+      have hc := hmem c (List.mem_cons_self ..)
+      obtain ⟨ms, h1, h2⟩ := ih (fun a ha => hmem a (List.mem_cons_of_mem _ ha))
+      obtain ⟨hsup, hnb⟩ := hplain c hc
+      cases c with
+      | super d' cs' =>
+        have hm := manifest_plain_roundtrip dec enc d' cs' (valid_of_mem hv.2 hc)
+          (quirkFree_of_mem hq.2 hc)
+          (by have := height_le_heightList hc; omega)
+          (by have := size_le_sizeList hc; omega) hnb
+        refine ⟨⟨false, mtypeOf (.super d' cs'), (Box.super d' cs').norm⟩ :: ms, ?_, ?_⟩
+        · simp only [childManifests, hm.1, h1, bind_ok]
+        · simp only [List.map_cons, hm.2, h2]
+      | leaf _ _ => exact absurd hsup id
+      | uuid _ _ => exact absurd hsup id
+      | bfdb _ _ _ => exact absurd hsup id
+  obtain ⟨ms, h1, h2⟩ := key cs (fun _ hc => hc)
+  exact ⟨ms, by simp only [loadBoxes, h, bind_ok, h1], h2⟩
+
+/-! ### the writer's own arithmetic -/
+
+/-- **No `u32` overflow in the writer.** `box_size` / `box_payload_size` / `boxes_size!` add `u32`
+values without checks (`Box.size32` models them with an overflow as `panic`, length casts as
+truncation). For every tree below 4 GiB they compute exactly `Box.size`; … -/
+theorem writer_size_no_overflow (b : Box) (h : b.size < 4294967296) : b.size32 = .ok b.size :=
+  b.size32_ok h
+
+/-- … in particular when the reader's result for an input of at most 8/9 · 2^32 bytes is written
+again (quirk-free tree): the re-serialisation never reaches an overflowing addition. -/
+theorem reser_writer_no_overflow (x : Bytes) (b : Box) (e : Nat) (h : parse x = .ok (b, e))
+    (hq : b.QuirkFree) (hx : x.length ≤ 3817748707) : b.size32 = .ok b.size :=
+  b.size32_ok (parse_size_lt_u32 x b e h hq hx)
+
+/-- the hypothesis is needed: a `json` box with 2^32 − 8 bytes of content overflows `8 + len` -/
+example : uadd 8 (asU32 4294967288) = .panic := by simp [uadd, asU32]
 
 end C2pa.C18
